@@ -65,12 +65,15 @@ CLAIMED = [
 ]
 
 # fragments written by the module builders are merged once their checks have been accepted by the coordinator
-READY_FRAGMENTS = {'C19', 'C20'}
+READY_FRAGMENTS = {'C19', 'C20', 'C06', 'C07', 'C18'}
 
 PENDING = {
 }
 
 ENGINES = [
+    dict(name='tla-io', path='spec/OVMB.tla spec/OVMBMachine.tla spec/OVMBGen.tla spec/OVMAscii.tla spec/OVMIOTrace.tla harness/io_exec.cc bin/io_check.py',
+         serves_properties=['C06', 'C07', 'C18'],
+         kind_free_text='byte-level TLA+ formalisation of the OVMB format and token-level model of OVM-ASCII used as decoder, as generator of alternative encodings and of field-aware corruptions; files written / read by the C++ library are validated by TLC; fault enumeration replayed under ASan/UBSan'),
     dict(name='tla-vecread', path='spec/OVMVec.tla spec/OVMVecMC.tla spec/OVMVecTrace.tla spec/OVMReaders*.tla harness/vec_exec.cc harness/readers_exec.cc bin/vecread_check.py',
          serves_properties=['C19', 'C20'],
          kind_free_text='TLA+ definitions of the vector algebra / of const queries as atomic reads; TLC-generated operation scripts and reader programs executed on the C++ library (also under ThreadSanitizer); results validated by TLC'),
